@@ -226,6 +226,18 @@ def c13_mutants(rng, nodes, lay):
                 ("DisallowedRegister", "a", 0)))
     out.append(("undeclared name inside a gate body", ins(pos(), ("gate", "gbad", ["a"], [], [("apply", "x", [("r", "b")], [])])),
                 ("UnknownReg", "b")))
+    # the same two rules at a later argument of a later statement of the body
+    out.append(("indexing inside a gate body (second argument, second statement)",
+                ins(pos(), ("gate", "gbad", ["a", "b"], [], [("apply", "h", [("r", "a")], []),
+                                                              ("apply", "cx", [("r", "a"), ("q", "b", 0)], [])])),
+                ("DisallowedRegister", "b", 0)))
+    out.append(("undeclared name inside a gate body (second argument)",
+                ins(pos(), ("gate", "gbad", ["a", "b"], [], [("apply", "cx", [("r", "a"), ("r", "zz")], [])])),
+                ("UnknownReg", "zz")))
+    out.append(("global register inside a gate body (third argument)",
+                ins(pos(), ("gate", "gbad", ["a", "b"], [], [("apply", "x", [("r", "b")], []),
+                                                              ("apply", "ccx", [("r", "a"), ("r", "b"), ("r", qn)], [])])),
+                ("UnknownReg", qn)))
     out.append(("unbound parameter inside a gate body",
                 ins(pos(), ("gate", "gbad", ["a"], ["t"], [("apply", "rx", [("r", "a")], [("add", ("var", "t"), ("var", "zz"))])])),
                 ("UnknownArg", "zz")))
@@ -321,6 +333,21 @@ def c17_cases(rng, tier):
           ("measure", ("q", "q", 0), ("q", "d", 0)), ("if", "d", 1, ("apply", "x", [("q", "q", 1)], []))]
     for api in ("changes", "prepend", "add"):
         cs.append({"chunks": [w3[:2], w3[2:]], "api": api, "seed": 5, "whole": w3})
+    # nested gate definitions that end up in different chunks (callee earlier / callee later / callee shadowing a built-in)
+    q2 = [("q", "q", 0), ("q", "q", 1)]
+    bell = ("gate", "bell", ["a", "b"], [], [("apply", "h", [("r", "a")], []), ("apply", "cx", [("r", "a"), ("r", "b")], [])])
+    outer = ("gate", "outer", ["a", "b"], [], [("apply", "bell", [("r", "a"), ("r", "b")], []), ("apply", "t", [("r", "b")], [])])
+    myqft = ("gate", "qft", ["a"], [], [("apply", "x", [("r", "a")], [])])
+    outer2 = ("gate", "outer", ["a", "b"], [], [("apply", "qft", [("r", "a")], []), ("apply", "cx", [("r", "a"), ("r", "b")], [])])
+    call = ("apply", "outer", q2, [])
+    for chunks in ([[("qreg", "q", 2), bell], [outer, call]],
+                   [[("qreg", "q", 2), outer], [bell, call]],
+                   [[("qreg", "q", 2), bell, outer], [call]],
+                   [[("qreg", "q", 2), myqft], [outer2, call]],
+                   [[("qreg", "q", 2)], [bell], [outer], [call]]):
+        whole = [n for ch in chunks for n in ch]
+        for api in ("changes", "prepend", "add"):
+            cs.append({"chunks": chunks, "api": api, "seed": 9, "whole": whole})
     for _ in range(60 if tier == "quick" else 800):
         nodes, lay = qa.gen_program(rng, nstmts=rng.randint(4, 25), max_q=5, measure_p=0.15, if_p=0.15, reset_p=0.08,
                                     gate_defs=2, depth=2, late_p=0.15)
